@@ -120,6 +120,9 @@ class Check(BaseCheck):
                 return None
         elif np.min(np.abs(corr_fem.tet_geom(v, t)[1])) < 4 * np.finfo(float).eps:
             return None
+        # conditioning: coordinates far from the origin / tiny elements lose digits in the differences the kernels form
+        el = np.linalg.norm(v[t[:, 1]] - v[t[:, 0]], axis=1)
+        kappa = max(1.0, float(np.abs(v).max() / max(el.min(), 1e-300)) * 1e-3)
         rng = gen.rng_for(self.seed, "c06o", len(v))
         a = rng.normal(size=3); b = rng.normal()
         try:
@@ -135,7 +138,7 @@ class Check(BaseCheck):
             _, _, _, cr, area = corr_fem.tri_geom(v, t)
             nh = cr / np.linalg.norm(cr, axis=1)[:, None]
             exp = a - (nh @ a)[:, None] * nh
-            if np.max(np.abs(ga - exp)) > 1e-8 * max(1, np.abs(a).max()):
+            if np.max(np.abs(ga - exp)) > 1e-8 * kappa * max(1, np.abs(a).max()):
                 return core.Violation("affine", "gradient of a·x+b is not the in-plane projection of a (max dev %.3g)" % np.max(np.abs(ga - exp)), case)
             if np.max(np.abs(np.einsum("ij,ij->i", gf, nh))) > 1e-8 * max(1, np.abs(gf).max()):
                 return core.Violation("tangent", "gradient not tangent to its triangle", case)
@@ -143,7 +146,7 @@ class Check(BaseCheck):
             gref = corr_fem.tri_grad(v, t, f)
         else:
             # orientation by the library's own convention and any other orientation: gradient must be a
-            if np.max(np.abs(ga - a)) > 1e-8 * max(1, np.abs(a).max()):
+            if np.max(np.abs(ga - a)) > 1e-8 * kappa * max(1, np.abs(a).max()):
                 return core.Violation("affine", "tetra gradient of a·x+b is not a (max dev %.3g)" % np.max(np.abs(ga - a)), case)
             meas = np.abs(corr_fem.tet_geom(v, t)[1]) / 6
             gref = corr_fem.tet_grad(v, t, f)
